@@ -239,6 +239,9 @@ let run_case (lines : string list) =
        | "F.new" -> let j = tk_int tk in let (h, r) = M.h_new !heap in heap := h; Hashtbl.replace reg j r; pr "ok\n"
        | "F.set" -> let j = tk_int tk in let f = read_frame_lit tk in ignore (rg j);
          let (h, r) = M.h_set !heap f in heap := h; Hashtbl.replace reg j r; pr "ok\n"
+       | "F.fromdata" -> let j = tk_int tk in let k = tk_int tk in let f = tk_u tk in
+         (* exact as long as the copy is rebound (F.set) before either side is edited in place: the generator guarantees it *)
+         on_outcome (M.at_ (o k).M.frames f) (fun fr -> let (h, r) = M.h_set !heap fr in heap := h; Hashtbl.replace reg j r; pr "ok\n")
        | "F.copy" -> let j = tk_int tk in let i = tk_int tk in Hashtbl.replace reg j (rg i); pr "ok\n"
        | "F.mutpt" -> let j = tk_int tk in let i = tk_u tk in let v = tk_flt tk in
          on_outcome (M.h_mut_pt !heap (rg j) i v) (fun h -> heap := h; pr "ok\n")
